@@ -353,3 +353,44 @@ def test_facts(tier):
         info = json.load(open(os.path.join(cd, 'info.json')))
     paths = {n: os.path.join(cd, f'mir-{n}.json') for n in crates if os.path.exists(os.path.join(cd, f'mir-{n}.json'))}
     return crates, paths, info
+
+
+REPO_FEATURES = 'test_suite/serde,test_suite/regex,test_suite/arbitrary,test_suite/schemars08,test_suite/new_unchecked,nutype/new_unchecked,nutype/schemars08'
+
+
+def repo_facts():
+    """MIR facts of the repository's *own* declarations (test_suite tests, examples, dummy, doc examples of the
+    facade crate), built with the optional features on. Nothing is written into the repository."""
+    cd = cache_dir('repo-own')
+    with Lock(os.path.join(cd, '.lock')):
+        if not os.path.exists(os.path.join(cd, 'ok')):
+            t0 = time.time()
+            sc = scratch()
+            out = os.path.join(sc, 'repoout')
+            os.makedirs(out, exist_ok=True)
+            env = cargo_env({
+                'LD_LIBRARY_PATH': nightly_sysroot() + '/lib',
+                'RUSTFLAGS': '-Zmir-opt-level=0 -Awarnings',
+                'RUSTC_WORKSPACE_WRAPPER': NUMIR,
+                'NUMIR_OUT': out,
+                'CARGO_TARGET_DIR': os.path.join(sc, 'repo-target'),
+            })
+            p = run(['cargo', '+nightly', 'check', '--workspace', '--tests', '--offline', '-j', '16', '--features', REPO_FEATURES],
+                    repo(), env, "repository's own workspace (MIR facts)")
+            shutil.rmtree(os.path.join(sc, 'repo-target'), ignore_errors=True)
+            names = []
+            for fn in sorted(os.listdir(out)):
+                if fn.endswith('.json'):
+                    cn = fn.rsplit('-', 1)[0]
+                    dst = os.path.join(cd, f'mir-{cn}.json')
+                    k = 1
+                    while os.path.exists(dst):
+                        k += 1
+                        dst = os.path.join(cd, f'mir-{cn}-{k}.json')
+                    shutil.move(os.path.join(out, fn), dst)
+                    names.append(os.path.basename(dst))
+            json.dump({'rc': p.returncode, 'built_s': round(time.time() - t0, 1), 'files': names,
+                       'tail': p.stdout[-2500:] if p.returncode else ''}, open(os.path.join(cd, 'info.json'), 'w'))
+            open(os.path.join(cd, 'ok'), 'w').write('ok')
+        info = json.load(open(os.path.join(cd, 'info.json')))
+    return [os.path.join(cd, f) for f in info['files']], info
